@@ -230,6 +230,11 @@ func (x *exec) instr(st *pstate, in ssa.Instruction) bool {
 				case *ssa.Function, *ssa.Builtin:
 				default:
 					if _, isVar := in.Object().(*types.Var); isVar {
+						if _, addrTaken := st.vars["&"+name]; addrTaken && x.allocNamed[name] {
+							// the variable lives in a cell (its address is taken somewhere): the value
+							// mentioned here is what is being stored into it, not a new binding
+							break
+						}
 						st.vars[name] = tval{x.val(st, in.X), in.X.Type()}
 						delete(st.vars, "&"+name)
 					}
@@ -303,6 +308,13 @@ func (x *exec) instr(st *pstate, in ssa.Instruction) bool {
 			return false
 		}
 		x.store(st, l, x.toTerm(v))
+		if l.Kind == LElem {
+			if _, has := x.p.valueInvOf(l.Root); has {
+				// a slice element of a type with a value invariant was (partly) overwritten
+				whole := &Loc{Kind: LElem, Ref: l.Ref, Idx: l.Idx, Root: l.Root}
+				x.checkValueInv(st, x.env.Load(st.heap, whole), l.Root, "typeinv."+x.ord[in], in.Pos(), "the stored slice element")
+			}
+		}
 	case *ssa.MakeSlice:
 		x.set(st, in, x.makeSlice(st, in))
 	case *ssa.Call:
@@ -360,6 +372,15 @@ func (x *exec) alloc(st *pstate, in *ssa.Alloc) {
 		return
 	}
 	l := &Loc{Kind: LRoot, Ref: ref, Root: et, fresh: true}
+	if c := in.Comment; c != "" && c != "complit" && c != "varargs" && c != "new" && !strings.ContainsAny(c, " .()[]") && len(st.frames) == 0 {
+		// the cell of the source-level variable c: specifications read the variable through it
+		if x.allocNamed == nil {
+			x.allocNamed = map[string]bool{}
+		}
+		x.allocNamed[c] = true
+		st.vars["&"+c] = tval{l, in.Type()}
+		delete(st.vars, c)
+	}
 	if isGoStruct(et) {
 		x.p.D.AddFunc("rbase", smt.Int, smt.Int)
 		st.assume(smt.Eq(smt.App("rbase", smt.Int, ref), ref), "a new object is its own allocation")
@@ -543,6 +564,9 @@ func (x *exec) unop(st *pstate, in *ssa.UnOp) Val {
 			return r
 		}
 		x.assumeLoaded(st, v, t)
+		if l.Kind == LElem && len(l.Path) == 0 && !l.fresh {
+			x.assumeValueInv(st, v, t, "slice element")
+		}
 		return x.wrap(v, t)
 	case token.NOT:
 		return smt.Not(x.term(st, in.X))
@@ -827,6 +851,7 @@ func (x *exec) makeSlice(st *pstate, in *ssa.MakeSlice) Val {
 	x.check(st, ob+".cap", "make", smt.And(smt.BVUle(ln, cp), smt.BVUle(cp, maxLen)), in.Pos(), "makeslice: cap out of range")
 	ref := x.env.Alloc(st.State)
 	x.env.SetBacking(st.heap, et, ref, x.p.T.ZeroArray(et))
+	x.checkValueInv(st, x.p.T.Zero(et), et, ob+".typeinv", in.Pos(), "the zero elements of the new slice")
 	x.ghostAlloc(st, smt.BVMul(cp, bv64(sizeOf(et))))
 	return MkSlice(ref, bv64(0), ln, cp)
 }
@@ -860,6 +885,11 @@ func (x *exec) doReturn(st *pstate, in *ssa.Return) {
 		sc.vars[fmt.Sprintf("result%d", i)] = sv
 		if res.Len() == 1 {
 			sc.vars["result"] = sv
+		}
+	}
+	for i := 0; i < res.Len(); i++ {
+		if rt, isTerm := x.val(st, in.Results[i]).(*smt.Term); isTerm {
+			x.checkValueInv(st, rt, res.At(i).Type(), fmt.Sprintf("typeinv.result%d", i), in.Pos(), "the returned value")
 		}
 	}
 	if len(x.ownedParams) > 0 || len(st.owned) > 0 || len(st.heapOwned) > 0 {
